@@ -56,8 +56,8 @@ PROPS.update({
         level_text="Duplicate submissions (same item resubmitted, client retries of failed submissions) in every phase of a round, with cache faults between incarnations (deleted, rolled back to a snapshot, converted to the legacy 128-bit table, rebuilt by the built cmd/recompute-cache binary from a materialised copy of the simulated storage, the log key being derived from a seed file the way cmd/sunlight does); oracle: within a cache epoch all acknowledgements of an entry carry one (index, timestamp); an entry that is pending or acknowledged in the epoch is never admitted again; leaves per entry <= admissions minus evictions; every acknowledgement from any cache source satisfies the C02 storage oracle.",
         expect_probes=["fault.cache.delete", "fault.cache.rollback", "fault.cache.legacy", "fault.cache.recompute"]),
     "C08": dict(SEQ,
-        level_text="After a simulated prefix, objects are deleted, truncated, bit-flipped, extended, swapped or rolled back (biased towards the right-edge tiles, checkpoint and staging bundles that recovery reads), combined with crashes, restarts and further sequencing; oracle: every checkpoint committed to the lock store afterwards has root MTH(pre-tamper leaves ++ entries sunlight itself staged afterwards), those entries are submitted ones with the right indexes, and every acknowledgement names such an index. Refusing to load or stopping is accepted.",
-        expect_probes=["fault.tamper.flip", "fault.tamper.delete", "tamper.commit.checked"]),
+        level_text="After a simulated prefix, objects are deleted, truncated, bit-flipped, extended, swapped, rolled back or (data tiles, also inside staging bundles) re-encoded well-formed with one leaf changed (biased towards the newest data tile, the right-edge tiles, checkpoint and staging bundles that recovery reads), combined with crashes, restarts and further sequencing; oracle: every checkpoint committed to the lock store afterwards has root MTH(pre-tamper leaves ++ entries sunlight itself staged afterwards), those entries are submitted ones with the right indexes, and every acknowledgement names such an index. Refusing to load or stopping is accepted.",
+        expect_probes=["fault.tamper.flip", "fault.tamper.delete", "fault.tamper.recode", "tamper.commit.checked", "tamper.refused"]),
     "C11": dict(SEQ,
         level_text="Signing half: every checkpoint committed in the simulated histories (all sizes, roots and timestamps they reach) must open with the public verifier, carry the ML-DSA cosignature, embed the round's clock reading and verify with ct-go's independent verifier over the rebuilt tree head; equal tree heads give equal signature bytes. Strictness half: each committed checkpoint is corrupted by 14 structure-aware mutators and whenever sunlight's note verifier accepts, the independent verifier must accept the same (origin,size,root,timestamp). The strictness half is a function of bytes: simulation only supplies the inputs; stated here as exploration over inputs.",
         expect_probes=["c11.mutation.timestamp", "c11.mutation.blob-trailing-byte"]),
@@ -108,7 +108,7 @@ PROPS["C14"] = dict(WIT,
     expect_probes=["resp.addckpt.200", "resp.addckpt.409", "resp.addckpt.422", "resp.addckpt.403", "fault.nonyield.err-applied.lreplace", "crash"])
 PROPS["C15"] = dict(WIT,
     level_text="Interleaved add-checkpoint and add-entries requests (request bodies park between entry packages, tile uploads park at the storage seam, so uploads race each other and checkpoint updates), arbitrary ranges, unaligned starts, truncated bodies, wrong entries/proofs, stale and forged tickets, gzip bodies, faults and restarts; at every effective write of the mirror checkpoint and every 200 answer the mirror storage must serve the complete signed tree (every full tile, right-edge partial or its full extension, entries equal to the log's, root equal), size never above the pending checkpoint, never decreasing; after a final restart an upload from the mirror size must be accepted.",
-    expect_probes=["resp.addentries.200", "resp.addentries.409", "servable.checked", "resume.ok", "concurrent.requests", "fault.body.cut"])
+    expect_probes=["resp.addentries.200", "resp.addentries.409", "servable.checked", "resume.ok", "concurrent.requests", "fault.body.cut", "script.cut-tile", "script.cut-tile.retry"])
 PROPS["C16"] = dict(WIT,
     level_text="sign-subtree requests over checkpoints that were really cosigned in the simulated histories (witness only, mirror only, both) and over none/foreign/forged/corrupted ones, all range shapes and correct/incorrect hashes and proofs; oracle: signatures are returned only for a valid subtree within the size whose hash is the reference subtree hash, exactly by those own ML-DSA keys whose cosignature on the presented checkpoint verifies, and each returned line verifies with the public subtree verifier. The handler is stateless: the simulation contributes the supply of genuinely cosigned checkpoints; stated as exploration over inputs.",
     expect_probes=["resp.subtree.200", "subtree.signed", "resp.subtree.422", "resp.subtree.403"])
@@ -118,8 +118,8 @@ ENGINES.append({"name": "wit", "path": "overlay/verifsim/wit", "serves_propertie
 PROPS["C12"] = {
     "engine": "client", "quick_budget": 45, "thorough_budget": 600,
     "level_note": "Trusted: the reference model that renders the ground-truth log (tiles, data tiles, checkpoints signed through sunlight's own signer), ct-go's TLS marshalling of SCTs, Go's net/http. Real: sunlight.Client (HTTP mode) with torchwood's fetcher, retries, Retry-After handling, timeouts and concurrency limit on the fake clock, over a real http.Transport on in-memory connections (transparent gzip decoding, short bodies, dropped connections). The tree head handed to the client is authentic; file:// modes and the permanent cache are not exercised.",
-    "level_text": "The real client's Entries, AllEntries, Entry, CheckInclusion and Checkpoint run against an in-process log whose every response is decided by the scheduler: bit flips, truncation, trailing bytes, another tile of the same log (other index, other level, narrower or wider partial), the same tile of a forked log signed by the same key, gzip damage, short bodies, 404/429/503 with Retry-After, stalls past the timeout, dropped connections, reordered concurrent responses; older-but-valid, foreign-key and corrupted checkpoints; SCTs that are valid or wrong in log id, timestamp, index, signature, extension encoding, or issued for the forked leaf. Oracle: every yielded/returned entry has exactly the Merkle-covered fields of the ground-truth leaf at that index, an SCT is confirmed only if valid, a checkpoint is returned only if a served body signed by the configured key states it; without faults the whole log is yielded.",
-    "expect_probes": ["complete.allentries", "complete.entries", "inclusion.confirmed", "checkpoint.ok", "fault.fork", "fault.subst", "fault.gzflip", "fault.429", "fault.stall", "concurrent.requests"],
+    "level_text": "The real client's Entries, AllEntries, Entry, CheckInclusion and Checkpoint run against an in-process log whose every response is decided by the scheduler: bit flips, truncation, trailing bytes, another tile of the same log (other index, other level, narrower or wider partial), the same tile of a forked log signed by the same key, gzip damage, short bodies, 404/429/503 with Retry-After, stalls past the timeout, dropped connections, reordered concurrent responses; older-but-valid, foreign-key, corrupted and extension-spliced checkpoints; authentic logs that hold a copy of an earlier leaf at a later position (the committed leaf's own index differs from its position), a third of the runs with AllowRFC6962ArchivalLeafs set; SCTs that are valid or wrong in log id, timestamp, index (also: rewritten to the position of a duplicated leaf), signature, extension encoding, or issued for the forked leaf. Oracle: every yielded/returned entry has exactly the Merkle-covered fields of the ground-truth leaf at that index, an SCT is confirmed only if valid, a checkpoint is returned only if a served body signed by the configured key states it; without faults the whole log is yielded.",
+    "expect_probes": ["complete.allentries", "complete.entries", "inclusion.confirmed", "checkpoint.ok", "fault.fork", "fault.subst", "fault.gzflip", "fault.429", "fault.stall", "concurrent.requests", "entry.misindexed"],
     "real": ["sunlight.Client (client.go), tile.go codec, checkpoint.go verifier", "torchwood client and tile fetcher (retries, backoff, timeouts, concurrency limit)", "net/http client transport over in-memory connections"],
     "stubbed": ["the log server: in-process handler rendering objects from the reference model, responses decided by the scheduler", "network: net.Pipe", "clock and timers: testing/synctest"],
     "assumptions": ["the tree head given to the client is authentic (the property's premise)", "sampling: a clean batch is evidence, not proof"],
